@@ -24,6 +24,8 @@ pub struct ScriptRng {
     pos: usize,
     next: u32,
     pub draws: Rc<RefCell<Vec<u32>>>,
+    /// values the driver pushes at run time; drawn before anything else
+    pub inject: Rc<RefCell<std::collections::VecDeque<u32>>>,
 }
 
 // The multiplexor requires `R: Send`; the simulator is single-threaded and the
@@ -37,10 +39,14 @@ impl ScriptRng {
             pos: 0,
             next: fallback_start,
             draws: Rc::new(RefCell::new(Vec::new())),
+            inject: Rc::new(RefCell::new(std::collections::VecDeque::new())),
         }
     }
     fn draw(&mut self) -> u32 {
-        let v = if self.pos < self.script.len() {
+        let injected = self.inject.borrow_mut().pop_front();
+        let v = if let Some(v) = injected {
+            v
+        } else if self.pos < self.script.len() {
             self.pos += 1;
             self.script[self.pos - 1]
         } else {
@@ -564,6 +570,7 @@ pub struct World {
     pub task_idx: [Option<usize>; 2],
     pub task_result: [Rc<RefCell<Option<Result<(), String>>>>; 2],
     pub rng_draws: [Rc<RefCell<Vec<u32>>>; 2],
+    pub rng_inject: [Rc<RefCell<std::collections::VecDeque<u32>>>; 2],
 }
 
 impl World {
@@ -579,6 +586,7 @@ impl World {
             task_idx: [None, None],
             task_result: [Rc::new(RefCell::new(None)), Rc::new(RefCell::new(None))],
             rng_draws: [Rc::new(RefCell::new(Vec::new())), Rc::new(RefCell::new(Vec::new()))],
+            rng_inject: [Rc::new(RefCell::new(std::collections::VecDeque::new())), Rc::new(RefCell::new(std::collections::VecDeque::new()))],
         };
         w.add_endpoint(0, a);
         w.add_endpoint(1, b);
@@ -595,6 +603,7 @@ impl World {
             task_idx: [None, None],
             task_result: [Rc::new(RefCell::new(None)), Rc::new(RefCell::new(None))],
             rng_draws: [Rc::new(RefCell::new(Vec::new())), Rc::new(RefCell::new(Vec::new()))],
+            rng_inject: [Rc::new(RefCell::new(std::collections::VecDeque::new())), Rc::new(RefCell::new(std::collections::VecDeque::new()))],
         };
         w.add_endpoint(side, cfg);
         w.sim.raw_side = Some(1 - side);
@@ -605,6 +614,7 @@ impl World {
         let ws: MemWs = self.sim.link.endpoint(side);
         let rng = ScriptRng::new(&cfg.rng, if side == 0 { 0x0a00_0000 } else { 0x0b00_0000 });
         self.rng_draws[side] = rng.draws.clone();
+        self.rng_inject[side] = rng.inject.clone();
         let (mux, taskdata) = Mux::new_detailed::<MemWs, VClock>(ws, cfg.opts, rng);
         self.mux[side] = Some(Rc::new(mux));
         let res = self.task_result[side].clone();
